@@ -243,19 +243,93 @@ Theorem C16_closed_stays_closed : forall wire s a c,
   still_closed s (fst (fst (step wire s a))) c.
 Proof. exact step_closed. Qed.
 
+(* ---------------- relayed datagrams (ReadWriteUDP) ---------------- *)
+
+(* every relayed datagram is its own flow.  For ALL lists of datagrams (any number, any
+   UDP addresses, pairs alike or not) relayed on a session in any state that is still up,
+   and for ALL answer schedules (any order, any datagram answered any number of times or
+   never, however late): the services are handed exactly the datagrams sent, and the frames
+   sent back to the agent are exactly, in schedule order, (pair of datagram i, answer bytes)
+   - the pair captured when datagram i arrived, not that of whichever arrived last.
+   Nothing else of the session changes. *)
+Theorem C16_udp_replies_keep_their_pair : forall ds sch s,
+  s_alive s = true -> forallb dg_udp ds = true ->
+  run ideal_wire s (relay_acts ds ++ answer_acts sch) =
+    (set_udp s (s_udp s ++ map dg_pair ds),
+     relay_res ds ++ map (fun _ => RNone) sch,
+     answer_frames (s_udp s ++ map dg_pair ds) sch).
+Proof. exact udp_replies_keep_their_pair. Qed.
+
+(* one answer, in any state: one frame with the pair of ITS datagram, no state change *)
+Theorem C16_udp_answer_tagged_with_its_datagram : forall s i l r p q,
+  s_alive s = true -> nth_error (s_udp s) i = Some (l, r) ->
+  step ideal_wire s (AUdpR i p q) = (s, RNone, [MUdp l r p]).
+Proof. exact answer_tagged. Qed.
+
+(* whatever happens in between - ANY list of further actions (more datagrams, TCP frames,
+   reads, writes, closes, answers, disconnect), over ANY wire: the pair of datagram i is
+   still the same afterwards *)
+Theorem C16_udp_pair_survives_any_history : forall wire acts s i pr,
+  nth_error (s_udp s) i = Some pr ->
+  nth_error (s_udp (fst (fst (run wire s acts)))) i = Some pr.
+Proof. exact pair_survives. Qed.
+
+(* non-interference with the TCP virtual connections, for ALL action lists: striking the
+   whole datagram relay (the ReadWriteUDP messages and every answer) out of a history
+   changes neither the connections, the registry, the liveness of the session, the result
+   of any other action, nor any frame sent to the agent other than the datagram frames *)
+Theorem C16_udp_relay_leaves_tcp_alone : forall acts s,
+  let '(t1, rs1, fs1) := run ideal_wire s acts in
+  let '(t2, rs2, fs2) := run ideal_wire s (filter (fun a => negb (is_relay_act a)) acts) in
+  tcp_same t1 t2 /\ other_res acts rs1 = rs2 /\ filter (fun f => negb (is_udp_msg f)) fs1 = fs2.
+Proof. intros acts s. exact (udp_relay_leaves_tcp_alone acts s s (tcp_same_refl s)). Qed.
+
+(* non-vacuity: three datagrams (two sharing the local IP, one IPv6) answered in REVERSE
+   order after all three have arrived, over the real codec; answer functions that all read
+   one per-session variable (the datagram received last) would tag all three alike *)
+Example C16_udp_three_datagrams_answered_in_reverse :
+  let a := (AUdp [10;0;0;5]%N 53, AUdp [198;51;100;1]%N 40001, [113;49]%N) in
+  let b := (AUdp [10;0;0;5]%N 123, AUdp [203;0;113;2]%N 40002, [113;50]%N) in
+  let c := (AUdp [32;1;13;184;0;0;0;0;0;0;0;0;0;0;0;5]%N 161, AUdp [32;1;13;184;0;0;0;0;0;0;0;0;0;0;170;170]%N 40003, [113;51]%N) in
+  let ds := [a; b; c] in
+  let sch := [(2%nat, [114;51]%N, [0;0]%N); (1%nat, [114;50]%N, [0;0]%N); (0%nat, [114;49]%N, [0;0]%N)] in
+  forallb dg_udp ds = true /\
+  snd (run transport sess0 (relay_acts ds ++ answer_acts sch)) =
+    [MUdp (fst (fst c)) (snd (fst c)) [114;51]%N; MUdp (fst (fst b)) (snd (fst b)) [114;50]%N;
+     MUdp (fst (fst a)) (snd (fst a)) [114;49]%N] /\
+  q_run sess0 (relay_acts ds ++ answer_acts sch) /\
+  answer_frames_shared (map dg_pair ds) sch =
+    [MUdp (fst (fst c)) (snd (fst c)) [114;51]%N; MUdp (fst (fst c)) (snd (fst c)) [114;50]%N;
+     MUdp (fst (fst c)) (snd (fst c)) [114;49]%N].
+Proof. vm_compute. repeat split; (reflexivity || discriminate || lia). Qed.
+
+(* non-vacuity of the non-interference theorem: datagrams and answers between the frames
+   of a TCP connection *)
+Example C16_udp_relay_nonvacuous :
+  let l := ATcp [192;0;2;1]%N 80 in let r := ATcp [10;0;0;7]%N 40000 in
+  let ul := AUdp [192;0;2;1]%N 53 in let u1 := AUdp [10;0;0;7]%N 5000 in let u2 := AUdp [10;0;0;8]%N 5000 in
+  let acts := [ASend (MHello l r); ASend (MUdp ul u1 [1]%N); ASend (MData l r [7;8]%N); ASend (MUdp ul u2 [2]%N);
+               AUdpR 0 [9]%N [0]%N; AWrite 0 [5]%N [0]%N; ARead 0 10; AUdpR 1 [10]%N [0]%N; AUdpR 0 [11]%N [0]%N] in
+  snd (run ideal_wire sess0 acts) =
+    [MUdp ul u1 [9]%N; MData l r [5]%N; MUdp ul u2 [10]%N; MUdp ul u1 [11]%N] /\
+  filter (fun a => negb (is_relay_act a)) acts = [ASend (MHello l r); ASend (MData l r [7;8]%N); AWrite 0 [5]%N [0]%N; ARead 0 10] /\
+  snd (run ideal_wire sess0 (filter (fun a => negb (is_relay_act a)) acts)) = [MData l r [5]%N].
+Proof. vm_compute. repeat split. Qed.
+
 (* ---------------- whole runs over the real codec ---------------- *)
 
 (* inside the quantifier (IPs of at most 16 bytes, ports 0..65535, payloads of at most
-   65000 bytes, service writes on surfaced connections) every message and every frame
+   65000 bytes, service writes on surfaced connections, datagram answers of at most 65000
+   bytes on any datagram relayed so far) every message and every frame
    passes the real wire unchanged, so the run over the real codec IS the run over a
    faithful wire - to which all the session theorems above apply *)
 Theorem C16_real_wire_is_faithful : forall acts s,
-  qinv s -> q_run s acts -> run transport s acts = run ideal_wire s acts.
+  qinv s -> qudp s -> q_run s acts -> run transport s acts = run ideal_wire s acts.
 Proof. exact run_q. Qed.
 
 Theorem C16_real_wire_is_faithful_from_start : forall acts,
   q_run sess0 acts -> run transport sess0 acts = run ideal_wire sess0 acts.
-Proof. intros acts. exact (run_q acts sess0 qinv0). Qed.
+Proof. intros acts. exact (run_q acts sess0 qinv0 qudp0). Qed.
 
 (* ---------------- one connection and its reader, step by step ---------------- *)
 
@@ -335,3 +409,7 @@ Print Assumptions C16_reader_never_ahead.
 Print Assumptions C16_all_delivered_before_eof.
 Print Assumptions C16_no_lost_wakeup.
 Print Assumptions C16_closed_lets_reader_through.
+Print Assumptions C16_udp_replies_keep_their_pair.
+Print Assumptions C16_udp_answer_tagged_with_its_datagram.
+Print Assumptions C16_udp_pair_survives_any_history.
+Print Assumptions C16_udp_relay_leaves_tcp_alone.
